@@ -151,6 +151,28 @@ def Add(a: int, b: int) -> int:
     return a + b
 
 
+@python.define
+def PreSlow(log: str, gate: str) -> int:
+    """finishes once `<gate>/failed` exists (or after 30 s)"""
+    import time
+
+    append_line(log, "pre")
+    t0 = time.time()
+    while not os.path.exists(os.path.join(gate, "failed")) and time.time() - t0 < 30:
+        time.sleep(0.02)
+    return 1
+
+
+@workflow.define
+def FailWFSlow(flag: str, log: str, prelog: str, token: str, gate: str) -> int:
+    """FailWF whose independent first node finishes only after the failing node has failed
+    (schedule-injection witness, see vlib/inject/cachehist.py)"""
+    p = workflow.add(PreSlow(log=prelog, gate=gate), name="p")
+    r = workflow.add(RaiseIf(flag=flag, log=log, token=token), name="r")
+    s = workflow.add(Add(a=p.out, b=r.out), name="s")
+    return s.out
+
+
 # --------------------------------------------------------------------------- C19
 def apply_prog(x, prog):
     """`prog` = [path, action]; path = list of steps ["i", index] | ["k", key] | ["a", attr];
